@@ -6,63 +6,118 @@ VISIT_DIR = "searcher::Searcher::visit_dir"
 OK_TO_VISIT = "searcher::Searcher::ok_to_visit_dir"
 
 
+def _enabling_sites(hir):
+    """where the descent flag (the conjunct next to ok_to_visit_dir) becomes true: [(node, guards, is_value_leaf)]"""
+    flag = None
+    for x in walk_exprs(hir):
+        if x["k"] == "If" and x["c"]["k"] != "LetE":
+            cs = conjuncts(x["c"])
+            if any(c["k"] == "MCall" and c["m"] == "ok_to_visit_dir" for c in cs):
+                for c in cs:
+                    c = peel(c, methods=False)
+                    if c["k"] == "Path" and c.get("rk") == "Local":
+                        flag = c["res"]
+    if flag is None:
+        return None, []
+    sites = []
+    flags, done = [flag], set()
+    while flags:
+        fl = flags.pop()
+        if fl in done:
+            continue
+        done.add(fl)
+        for x in walk_exprs(hir):
+            if x["k"] == "Assign" and peel(x["l"]).get("res") == fl and render(x["r"]) == "true":
+                sites.append((x, guards_of(hir, x), False))
+        for x in walk(hir):
+            if x["k"] == "Let" and x["pat"].get("id") == fl and x.get("init") is not None and render(x["init"]) != "false":
+                for leaf, _holder in leaf_results(x["init"]):
+                    if render(leaf) == "false":
+                        continue
+                    pl = peel(leaf, methods=False)
+                    if pl["k"] == "Path" and pl.get("rk") == "Local":
+                        flags.append(pl["res"])      # the flag is the value of another flag (a helper's local result)
+                        continue
+                    sites.append((leaf, guards_of(hir, leaf), render(leaf) != "true"))
+    return flag, sites
+
+
 def r1(ctx):
     """the directory entered for a link is the link resolved relative to its own location, and only if it is a directory"""
     hir = ctx.anchor_hir(VISIT_DIR)
-    br = None
-    for x in walk_exprs(hir):
-        if x["k"] == "If" and render(peel(x["c"], methods=False)) == "file_type.is_symlink()":
-            br = x
-    if br is None:
+    flag, sites = _enabling_sites(hir)
+    if flag is None or not sites:
         ctx.violation("anchor/symlink-branch", VISIT_DIR, "the symlink branch of the descent decision was not found")
         raise Abort()
-    calls = [c for c in walk_exprs(br["t"]) if c["k"] in ("Call", "MCall")]
-    names = [short(c.get("callee") or "", 2) if c["k"] == "Call" else c["m"] for c in calls]
-    raw = any(str(c.get("callee", "")).endswith("fs::read_link") for c in calls)
-    joined = any(c["k"] == "MCall" and c["m"] == "join" for c in calls)
-    canon = any(str(c.get("callee", "")).endswith("fs::canonicalize") or (c["k"] == "MCall" and c["m"] == "canonicalize") for c in calls)
-    asg = [x for x in walk_exprs(br["t"]) if x["k"] == "Assign" and render(x["l"]) == "path"]
-    ok = (canon or (raw and joined)) and len(asg) <= 1
-    if canon:
-        c0 = [c for c in calls if str(c.get("callee", "")).endswith("fs::canonicalize")]
-        ok = ok and c0 and "path" in render(c0[0]["args"][0])
-    ctx.obligation(ok)
-    if not ok:
-        ctx.violation("follow/target-resolution", ctx.where(VISIT_DIR, br),
+
+    def atoms(gs, leaf=None, is_value=False):
+        pos, neg = guard_atoms(gs)
+        pos = [render(peel(a_, methods=False)) for a_ in pos]
+        neg = [render(peel(a_, methods=False)) for a_ in neg]
+        lets = [(render_pat(g[1]["pat"]), render(g[1]["init"]), g[2]) for g in gs if g[0] == "if" and g[1]["k"] == "LetE"]
+        if is_value and leaf is not None:
+            pos.append(render(peel(leaf, methods=False)))
+        return pos, neg, lets
+    link_sites, plain_sites = [], []
+    for node, gs, is_value in sites:
+        pos, neg, lets = atoms(gs, node, is_value)
+        if any(p_.endswith("is_symlink()") for p_ in pos):
+            link_sites.append((node, pos, neg, lets))
+        elif any(n_.endswith("is_symlink()") for n_ in neg):
+            plain_sites.append((node, pos, neg, lets))
+    if not link_sites:
+        ctx.violation("anchor/symlink-branch", VISIT_DIR, "the symlink branch of the descent decision was not found")
+        raise Abort()
+    names = []
+    okr = okd = True
+    WALK = ("pass_ignores", "depth", "file_type", "read_dir", "entry")
+    for node, pos, neg, lets in link_sites:
+        res = [l_ for l_ in lets if ("canonicalize(" in l_[1] or "read_link(" in l_[1]) and l_[0].startswith("Result::Ok") and l_[2]]
+        names += [l_[1] for l_ in lets]
+        if not res or not any("path" in l_[1] for l_ in res) or (any("read_link(" in l_[1] for l_ in res) and not any("canonicalize(" in l_[1] for l_ in res) and not any(".join(" in render(n_) for n_ in [node])):
+            okr = False
+        if not any(p_.endswith(".is_dir()") and "file_type" not in p_ for p_ in pos):
+            okd = False
+        # ... and under no other condition: every directory behind a link must be found
+        for p_ in pos:
+            allowed = p_.endswith("is_symlink()") or (p_.endswith(".is_dir()") and "file_type" not in p_) or p_ == "self.current_follow_symlinks" or \
+                any(w in p_ for w in WALK) or p_ == "true"
+            ctx.obligation(bool(allowed))
+            if not allowed:
+                ctx.violation("follow/extra-condition/%s" % p_[:50], ctx.where(VISIT_DIR, node),
+                              "descending through a link to a directory is additionally conditioned on `%s`: directories behind links "
+                              "failing it are silently not searched" % p_)
+        for n_ in neg:
+            ctx.obligation(False)
+            ctx.violation("follow/extra-condition/!%s" % n_[:50], ctx.where(VISIT_DIR, node),
+                          "descending through a link to a directory is additionally conditioned on `!%s`: directories behind links "
+                          "failing it are silently not searched" % n_)
+        for l_ in lets:
+            allowed = (("canonicalize(" in l_[1] or "read_link(" in l_[1]) and l_[0].startswith("Result::Ok") and l_[2]) or any(w in l_[1] for w in ("file_type", "result", "read_dir", "entry"))
+            ctx.obligation(bool(allowed))
+            if not allowed:
+                ctx.violation("follow/extra-condition/%s" % l_[1][:50], ctx.where(VISIT_DIR, node),
+                              "descending through a link to a directory is additionally conditioned on `let %s = %s`" % (l_[0], l_[1]))
+    ctx.obligation(okr)
+    if not okr:
+        ctx.violation("follow/target-resolution", ctx.where(VISIT_DIR, link_sites[0][0]),
                       "a followed link must be resolved relative to the link's own directory (canonicalize(link path), or "
                       "read_link joined to the parent); the branch uses %s" % names)
-    # ok = true only under a directory test of the target
-    sets = [x for x in walk_exprs(br["t"]) if x["k"] == "Assign" and render(x["l"]) == "ok" and render(x["r"]) == "true"]
-    okd = bool(sets)
-    for s_ in sets:
-        g = [render(t[1]) for t in guards_of(br["t"], s_) if t[0] == "if" and t[2]]
-        if not any("is_dir()" in c for c in g):
-            okd = False
     ctx.obligation(okd)
     if not okd:
-        ctx.violation("follow/only-directories", ctx.where(VISIT_DIR, br), "a link may enable descent only if its target is a directory (links to files are just listed)")
-    # ... and under no other condition: every directory behind a link must be found
-    for s_ in sets:
-        for t in guards_of(br["t"], s_):
-            if t[0] != "if":
-                continue
-            for c in conjuncts(t[1]):
-                rc = render(peel(c, methods=False))
-                allowed = ("canonicalize(" in rc or "read_link(" in rc) and rc.startswith("let Result::Ok") or \
-                    rc.endswith(".is_dir()") and not rc.startswith("!") or rc == "self.current_follow_symlinks"
-                allowed = allowed and t[2]
-                ctx.obligation(bool(allowed))
-                if not allowed:
-                    ctx.violation("follow/extra-condition/%s" % rc[:50], ctx.where(VISIT_DIR, c),
-                                  "descending through a link to a directory is additionally conditioned on `%s`: directories behind links "
-                                  "failing it are silently not searched" % rc)
+        ctx.violation("follow/only-directories", ctx.where(VISIT_DIR, link_sites[0][0]), "a link may enable descent only if its target is a directory (links to files are just listed)")
+    # the path descended into is the resolved target
+    asg = [x for x in walk_exprs(hir) if x["k"] == "Assign" and "path" in render(x["l"]) and "resolved" in render(x["r"])]
+    oka = len(asg) >= 1 and all(any(g[0] == "if" and g[1]["k"] == "LetE" and "canonicalize(" in render(g[1]["init"]) for g in guards_of(hir, x_)) for x_ in asg)
+    ctx.obligation(oka)
+    if not oka:
+        ctx.violation("follow/target-resolution", ctx.where(VISIT_DIR), "the directory entered for a link must be the resolved target (path = resolved under the successful canonicalize)")
     # the non-link branch requires a directory
-    e = br.get("e")
-    oke = e is not None and "file_type.is_dir()" in render(e)
+    oke = bool(plain_sites) and all(any(p_ == "file_type.is_dir()" for p_ in pos) for _n, pos, _ng, _l in plain_sites)
     ctx.obligation(oke)
     if not oke:
-        ctx.violation("follow/plain-directory", ctx.where(VISIT_DIR, br), "entries that are not links may be entered only if they are directories")
-    ctx.covered("symlink branch of the descent decision (resolution, directory test)", 3, distinct_keys=["resolution", "dir-test", "plain"], sample=names)
+        ctx.violation("follow/plain-directory", ctx.where(VISIT_DIR), "entries that are not links may be entered only if they are directories")
+    ctx.covered("symlink branch of the descent decision (resolution, directory test, no other condition)", 3 + len(sites), distinct_keys=["resolution", "dir-test", "plain"], sample=names)
 
 
 def r3(ctx):
